@@ -1,4 +1,5 @@
 import ArroyProofs.AuditCmd
 import ArroyProofs.Properties.C07
 import ArroyProofs.Properties.C07Nns
+import ArroyProofs.Properties.C07History
 #audit Arroy.C07
